@@ -21,8 +21,9 @@ LOCK_NOTE = ('Trusted: Coq 8.16.1 kernel, no axioms; sequential consistency inst
 
 QSBR_NOTE = ('Trusted: Coq 8.16.1 kernel, no axioms; theorems are about the coarse model (every QSBR API call atomic) in coq/Qsbr/QsbrModel.v; a '
              'fine-grained model (coq/Qsbr/QsbrFine.v: one step per atomic access inside the calls, program counters, stale local copies) is '
-             'extracted and every event of every explored execution must be accepted by it (trace validation), its safety over all '
-             'interleavings is not yet a closed theorem; coarse model '
+             'extracted and every event of every explored execution must be accepted by it (trace validation); its safety, exactly-once and '
+             'thread-count theorems (C05c_*) hold for ALL interleavings and any number of threads; frees are queued per step in the fine '
+             'model (a superset of the real traces); statistics code, fences and weak-CAS spurious failures are not modelled; coarse model '
              'tied to the code by driving several qsbr_per_thread instances from one OS thread and comparing state word, epochs, request lists, '
              'orphan lists and the exact blocks freed after every call; interleavings of the atomic steps inside the calls are explored on the '
              'real code with real threads under the deterministic scheduler (all schedules up to 2-3 preemptions + random) with the property '
@@ -129,7 +130,12 @@ claimed = {
             'Trusted: Coq 8.16.1 kernel, no axioms; intrinsics by their lane-level meaning; g++ -O1; assertions on the concurrent paths are '
             'exercised by the C03/C09/C14 explorations, not here; the read_lock_count theorem of DESIGN (C16_rlc) is not proved.',
             'Coq proof (variant equivalence, statistics are observers) + 16-configuration differential run against the extracted model'),
-    'C05': ('proof', 'Coq theorem C05_safe_coarse: in every history of register/resume, pause/exit, quiescent and retire calls by any number of '
+    'C05': ('proof', 'Coq theorem C05c_fine_safe: over EVERY interleaving of the atomic accesses inside register / resume, pause / exit, quiescent '
+            'and retire calls by any number of threads (fine-grained model Qsbr/QsbrFine.v: loads, CASes with stale expected values, '
+            'fetch_sub, orphan-list exchange / push / move / append, program counters per call), no block is freed while a thread that was '
+            'registered and holding references at its request has yet to pass a quiescent state, pause or exit (invariant C05c_fine_invariant, '
+            'preserved by every step); the implementation\'s traces under the deterministic scheduler are replayed event by event by the '
+            'extracted model on every run, so the theorem covers them. Also: Coq theorem C05_safe_coarse: in every history of register/resume, pause/exit, quiescent and retire calls by any number of '
             'threads (calls atomic, distinct blocks), every block is freed only when no thread registered at its request is still to pass a '
             'quiescent state; C05_immediate: a request is executed at once only when at most one thread is registered. The model is validated '
             'call by call against the implementation; additionally every atomic step inside the calls is a scheduling point of a '
@@ -137,7 +143,10 @@ claimed = {
             'functions of qsbr_state and qsbr_epoch::advance are regenerated from qsbr.hpp on every run and bridged to the (epoch, T, P) '
             'arithmetic of the model, including the exact word transitions of register / quiescent / unregister.', '5 C05', QSBR_NOTE,
             'Coq invariant proof over the coarse model + differential correspondence + deterministic schedule exploration of the implementation'),
-    'C06': ('proof', 'Coq theorems: pending + freed is a permutation of retired in every history (exactly once, whether the requester runs on, '
+    'C06': ('proof', 'Coq theorems over the fine-grained model, for every interleaving of the atomic steps: C05c_fine_exactly_once (pending ++ freed '
+            'is a permutation of retired: nothing lost, nothing freed twice, whoever pauses or exits when) and C05c_fine_thread_count (the '
+            'word\'s thread count equals the registered threads whenever no thread is inside register / unregister); the traces of the '
+            'implementation are validated against that model on every run. Over the coarse model (calls atomic): pending + freed is a permutation of retired in every history (exactly once, whether the requester runs on, '
             'pauses or exits), the thread count in the state word equals the number of registered threads with P <= T, and after all but one '
             'thread have left two quiescent states of the remaining one leave nothing pending, and C06_three_rounds: whatever is pending '
             'in a reachable state is executed by the end of three consecutive rounds in which every registered thread quiesces or '
